@@ -12,7 +12,7 @@ ASSUMPTIONS = [
     "competitor tasks only await asyncio.sleep(0); the explorer picks the next ready handle (superset of FIFO)",
 ]
 MODE = sched.Mode("C30", tocks=True, rets=True, raises=True, enterdone=True, enterfail=True, horizon=3,
-                  limits=(None, 2.0, 2.5, 0.3), always=True, callcfg=True)
+                  limits=(None, 2.0, 2.5, 0.3), always=True, callcfg=True, rerun=True)
 
 
 def BOUND(tier):
@@ -21,7 +21,7 @@ def BOUND(tier):
 
 def RULE(tier):
     return ("" if tier == "quick" else sched.THOROUGH_NOTE + ". ") + ("every doer forest shape of the tier x every execution with <= %d deviations (config, leaf kind, per-step "
-            "yield/return/raise/complete-or-fail in enter, limit and start tyme given to the constructor or to do()/ado() over stale constructor values, and which ready asyncio handle runs next while 0..2 competitor "
+            "yield/return/raise/complete-or-fail in enter, limit and start tyme given to the constructor or to do()/ado() over stale constructor values (optionally followed by a second run without arguments), and which ready asyncio handle runs next while 0..2 competitor "
             "tasks spin on sleep(0)); the run with Doist.do() and the run with Doist.ado() on the virtual loop must give "
             "identical event traces, tymes, done flags, completion cycle and forced exits." % BOUND(tier))
 
@@ -63,6 +63,9 @@ def harness(job, ch):
             return ch.choose(n, "ready")
         try:
             res, exc, steps = vloop.drive(lambda: d.ado(**w.call_kwargs), pick, competitors=[comp] * ncomp)
+            if exc is None and w.second_run:
+                w.log("#", "second-run")
+                res, exc, steps = vloop.drive(lambda: d.ado(), pick, competitors=[comp] * ncomp)
         except vloop.Deadlock:
             w.log("#", "horizon")
             w.end = len(w.trace)
